@@ -709,6 +709,22 @@ def struct_unpack(p: Path, fmt: str, data: Any, offset: Any = 0, exact: bool = T
             continue
         size1, signed = _INT_CODES[code]
         for _ in range(cnt):
+            hit = None
+            off_c = z3.simplify(toff + pos)
+            if b.parts and not signed and z3.is_int_value(off_c):
+                for (o, piece) in b.parts:
+                    if o == off_c.as_long() and piece.conc_len() == size1:
+                        for pv in _provs(piece):
+                            if pv[0] == "to_bytes" and pv[3] == size1 and pv[2] == order:
+                                hit = pv[1]
+                                break
+                    if hit is not None:
+                        break
+            if hit is not None:  # unpack of a field that was packed with the same width and order: the value itself (A-struct)
+                p.assumption_ids.add("A-struct")
+                res.append(mk_int(hit))
+                pos += size1
+                continue
             t: Any = None
             for k in range(size1):
                 w = k if order == "little" else size1 - 1 - k
